@@ -695,8 +695,11 @@ def stepLine (lg jr : Bool) (ks : List Str) (s : Imp) : Line → Option Imp
       match findExisting s.dedup labels props ks with
       | some eid =>
           let pvs := decKV lg props
-          let r1 := pvs.foldl (mergeProp jr eid) (s.st, s.journal)
-          let r2 := labels.foldl (mergeLabel lg jr eid) r1
+          -- only writes to nodes that existed before the import are journalled: a node this
+          -- import created is deleted whole by the rollback
+          let jr' := jr && !s.created.contains eid
+          let r1 := pvs.foldl (mergeProp jr' eid) (s.st, s.journal)
+          let r2 := labels.foldl (mergeLabel lg jr' eid) r1
           some { s with st := r2.1, journal := r2.2, remap := (id, eid) :: s.remap,
                         nMerged := s.nMerged + 1 }
       | none =>
